@@ -23,6 +23,7 @@ def check_ref(repo, chk):
     pm = parent_map(fn.node)
     stores_x = [n for n in walk_local(fn.node) if isinstance(n, ast.Assign) and isinstance(n.targets[0], ast.Subscript) and norm_text(n.targets[0].value) == "set_x"]
     n_blocks = 0
+    has_ref_matrix = any(isinstance(n, ast.Assign) and isinstance(n.targets[0], ast.Subscript) and norm_text(n.targets[0].value) == "ref_matrix" for n in walk_local(fn.node))
     for sx in stores_x:
         block = pm[sx].body if hasattr(pm[sx], "body") and sx in pm[sx].body else None
         if block is None:
@@ -38,7 +39,9 @@ def check_ref(repo, chk):
         n_blocks += 1
         ref = norm_text(rm[0].value) if rm else None
         src = norm_text(dd[0].value.value.slice) if dd else None
-        ok = ref == chain and (src is None or src == chain) and bool(rm)
+        # the second bookkeeping dict is optional (the chain can be read back from set_x[i][0]); if the function keeps
+        # one, every block that records a reference must fill it with the same chain
+        ok = (ref == chain and bool(rm) if has_ref_matrix else True) and (src is None or src == chain)
         chk.instance("R-ref", "aligned_angle_ref_rule1: set_x[%s] chain=%s, ref_matrix[%s]=%s, decay_data[%s]: %s" % (key, chain, key, ref, src, ok))
         if not ok:
             chk.violation("R-ref", fn.key, "block%d" % n_blocks, "the reference recorded for particle `%s` is inconsistent: set_x uses chain `%s`, ref_matrix uses `%s`, reference data come from decay_data[%s]" % (key, chain, ref, src), file=CAL, line=sx.lineno)
@@ -76,10 +79,63 @@ def check_ref(repo, chk):
                 chk.violation("R-carry", f.key, "carry:%s" % name, "`%s` is re-initialised by `%s` at the top of every iteration, so the update `%s` never reaches the next iteration" % (name, norm_text(killed), norm_text(n)), file=CAL, line=killed.lineno)
     if n_aug < 1:
         raise AnalysisError("no loop-carried update found in tf_pwa/cal_angle.py (the `bias -= pi` offset vanished)")
-    # the offset in cal_helicity_angle specifically: initialised to -pi, reduced by pi per daughter, applied modulo 2 pi
+    # the offset in cal_helicity_angle specifically: the k-th daughter's azimuth is wrapped into [-(k+1) pi, -(k+1) pi + 2 pi)
+    # decided by interpreting the statements of the daughter loop that concern `bias` and ang["alpha"]
+    import sympy as sp
+
+    from ..sym import Translator, Unmodelled, equal
+
     h = repo.fn(CAL + "::cal_helicity_angle")
-    txt = [norm_text(x) for x in walk_local(h.node) if isinstance(x, (ast.Assign, ast.AugAssign))]
-    ok = "bias = -np.pi" in txt and "bias -= np.pi" in txt and any("% (2 * np.pi) + bias" in t for t in txt)
-    chk.instance("R-carry", "cal_helicity_angle: alpha is wrapped into [bias, bias + 2 pi) with bias = -pi for the first daughter and -2 pi for the second: %s" % ok)
+    loops = [n for n in walk_local(h.node) if isinstance(n, ast.For) and norm_text(n.iter).endswith(".outs") and any(isinstance(x, ast.AugAssign) and isinstance(x.target, ast.Name) for x in ast.walk(n))]
+    if not loops:
+        raise AnalysisError("cal_helicity_angle: daughter loop with a carried offset not found")
+    loop = loops[0]
+    pmh = parent_map(h.node)
+    tr = Translator(repo, hooks={"binop:Mod": lambda tr_, a, b: sp.Mod(a, b)}, max_depth=1)
+    env = {}
+
+    def try_exec(st):
+        if isinstance(st, (ast.Assign, ast.AugAssign)) and isinstance(st.targets[0] if isinstance(st, ast.Assign) else st.target, ast.Name):
+            name = (st.targets[0] if isinstance(st, ast.Assign) else st.target).id
+            try:
+                tr.exec_stmt(st, env, h.mod, 0)
+            except Exception:
+                env.pop(name, None)
+
+    # straight-line statements of the enclosing blocks before the loop (bias = -np.pi, two_pi = 2 * np.pi, ...)
+    chain, cur = [], loop
+    while cur in pmh and not isinstance(pmh[cur], (ast.FunctionDef,)):
+        chain.append(cur)
+        cur = pmh[cur]
+    chain.append(cur)
+    for node in reversed(chain):
+        par = pmh.get(node)
+        for fld in ("body", "orelse"):
+            blk = getattr(par, fld, None) if par is not None else None
+            if isinstance(blk, list) and node in blk:
+                for st in blk[: blk.index(node)]:
+                    try_exec(st)
+    got = []
+    for k in range(2):
+        A = sp.Symbol("A%d" % k, real=True)
+        env["ang"] = {"alpha": A, "beta": sp.Symbol("B%d" % k), "gamma": sp.Integer(0)}
+        for st in loop.body:
+            if isinstance(st, ast.Assign) and isinstance(st.targets[0], ast.Subscript) and norm_text(st.targets[0].value) == "ang" and norm_text(st.targets[0].slice) in ("'alpha'", '"alpha"'):
+                try:
+                    tr.exec_stmt(st, env, h.mod, 0)
+                except Unmodelled as e:
+                    raise AnalysisError("cal_helicity_angle: wrap statement `%s` not interpretable: %s" % (norm_text(st), e))
+            else:
+                try_exec(st)
+        got.append((A, env["ang"]["alpha"]))
+    ok = True
+    detail = []
+    for k, (A, val) in enumerate(got):
+        lo = -(k + 1) * sp.pi
+        want = sp.Mod(A - lo, 2 * sp.pi) + lo
+        same = sp.simplify(sp.sympify(val) - want) == 0 or all(abs(complex(sp.N((sp.sympify(val) - want).subs(A, x)))) < 1e-12 for x in (sp.Rational(-29, 10), sp.Rational(-1, 3), sp.Rational(1, 7), sp.Rational(31, 10), sp.Rational(-61, 10), sp.Rational(5)))
+        detail.append("daughter %d: alpha -> %s" % (k, val))
+        ok = ok and bool(same)
+    chk.instance("R-carry", "cal_helicity_angle: alpha of daughter k is wrapped into [-(k+1) pi, -(k+1) pi + 2 pi) (%s): %s" % ("; ".join(detail), ok))
     if not ok:
-        chk.violation("R-carry", h.key, "bias-wrap", "the azimuth range bookkeeping (bias = -pi; alpha = (alpha - bias) %% 2pi + bias; bias -= pi) changed", file=CAL, line=h.lineno)
+        chk.violation("R-carry", h.key, "bias-wrap", "the azimuth range bookkeeping changed: %s; expected (alpha + (k+1) pi) mod 2 pi - (k+1) pi for daughter k = 0, 1" % "; ".join(detail), file=CAL, line=loop.lineno)
